@@ -58,7 +58,7 @@ ReqNameForms(n) ==
       [] n = "accept-language" -> [lower |-> "accept-language", canon |-> "Accept-Language"]
 \* names whose spelling on the wire is compared (application names; the spelling of special names is free)
 IsXName(n) == n \in {"X-A", "x-a", "X-BB", "X-Bb", "x-bb", "x-lower-NAME", "X-Lower-Name", "x-lower-name", "X-a", "x-A", "x-bB",
-                     "X-Pad", "x-pad", "X-PAD", "x-pAD"}
+                     "X-Pad", "x-pad", "X-PAD", "x-pAD", "X-Interim", "x-interim", "X-INTERIM", "x-inTerim"}
 
 \* documented path normalisation (pkg/protocol/uri.go: "The returned path is always urldecoded and normalized, i.e.
 \* '//f%20obar/baz/../zzz' becomes '/f obar/zzz'"; client option: "extra slashes are removed, special characters are
